@@ -473,3 +473,11 @@ Proof.
   - split; [|reflexivity]. intros _. exists s. split; [reflexivity|]. left. apply Nat.eqb_neq. exact E1.
   - split; [|reflexivity]. intros _. exists s. split; [reflexivity|]. left. apply Nat.eqb_neq. exact E1.
 Qed.
+
+(* ... and the FromResourceSlice panic of IgnoreLocal (id collision after the hash suffix was added) *)
+Example build_panic_hash_clash :
+  build (fun _ => false) PSortNone
+        (PDir "t" (mkPDirs "" "" "" [] [] [] [mkPGen "a" "" "" ["k=v"] "" false [] [] false] [])
+           [PFile [Map [("apiVersion", Scalar TStr SPlain "v1"); ("kind", Scalar TStr SPlain "ConfigMap");
+                        ("metadata", Map [("name", Scalar TStr SPlain "a-bdg947hgcc")])]]]) = Panic.
+Proof. vm_compute. reflexivity. Qed.
